@@ -198,5 +198,5 @@ def check_skeletons(actual: dict, pinned_path: str, write: bool = False) -> list
             out.append(f"{k}: {'not pinned' if p is None else 'no longer cut'}")
             continue
         diff = "\n".join(list(difflib.unified_diff(p.split("\n"), a.split("\n"), "pinned", "current", lineterm="", n=1))[:24])
-        out.append(f"{k}: loop skeleton differs from the one Model/TwinLoops.lean was written for:\n{diff}")
+        out.append(f"{k}: differs from the pinned text (loop skeleton modelled by Model/TwinLoops.lean, or pinned twin diff):\n{diff}")
     return out
